@@ -15,7 +15,7 @@ from .. import oracle as O
 from ..core import CaseTimeout, deadline
 from ..fstnav import live_vs_parse, node_at
 from ..programs import PROGRAMS
-from .c07 import enumerate_whats, sdump
+from .c07 import cont_docs, enumerate_whats, reparse_ok, sdump
 
 ID = 'C08'
 _CTXRE = re.compile(r"ctx=(Store|Del)\(\)")
@@ -102,7 +102,6 @@ def roundtrip(fst, pi, src, what, form, reps, res):
     path = what[1]
     tree = ast.parse(src)
     exact = not form.endswith('ast')  # pure-AST code carries no layout: its docstrings are re-indented on the way in
-    want = sdump(tree)
     if what[0] == 'node':
         label = O.path_str(path)
     else:
@@ -117,6 +116,7 @@ def roundtrip(fst, pi, src, what, form, reps, res):
     root = fst.FST(src, 'exec')
     res.evals += 1
     res.state(src)
+    inter = None  # the piece in hand between cut and put back: its AST values must be what its own source denotes
     try:
         with deadline(15):
             for _ in range(reps):
@@ -125,6 +125,7 @@ def roundtrip(fst, pi, src, what, form, reps, res):
                     if what[0] == 'node':
                         par, pf = n.parent, n.pfield
                         piece = n.cut(norm=False)
+                        inter = inter or reparse_ok(fst, piece)
                         code = piece if form == 'cut-fst' else piece.src if form == 'cut-src' else piece.a
                         if form == 'cut-ast':
                             code = ast.parse(ast.unparse(piece.a)) if isinstance(piece.a, ast.Module) else _pure(piece)
@@ -134,6 +135,8 @@ def roundtrip(fst, pi, src, what, form, reps, res):
                             par.put_slice(code, pf.idx, pf.idx, pf.name, one=True, norm=False)
                     else:
                         piece = n.get_slice(i, j, field, cut=True, norm=False)
+                        if not (isinstance(piece.a, (ast.BoolOp, ast.MatchOr)) and j - i < 2):  # norm=False: a one-operand container is what was asked for
+                            inter = inter or reparse_ok(fst, piece)
                         code = piece if form == 'cut-fst' else _slice_src(piece) if form == 'cut-src' else _pure(piece)
                         n = node_at(root, path)
                         n.put_slice(code, i, i, field, norm=False)
@@ -163,11 +166,16 @@ def roundtrip(fst, pi, src, what, form, reps, res):
             res.fail(cid, 'roundtrip-raised-internal:' + e.__class__.__name__, f'src={src!r}\n{e!r}', params, rep)
         return
     res.traces += 1
+    if inter:
+        res.fail(cid, 'cut-piece-differs-from-its-own-source', f'src={src!r}\n{inter}', params, rep)
+        return
     bad = live_vs_parse(root, 'Module')
     if bad:
         res.fail(cid, 'C01-after-roundtrip', f'src={src!r}\n{bad}', params, rep)
         return
-    got = sdump(ast.parse(root.src))
+    now = ast.parse(root.src)
+    cont = cont_docs(tree, now)
+    got, want = sdump(now, cont), sdump(tree, cont)
     if got != want:
         res.fail(cid, 'roundtrip-changed-structure', f'src={src!r}\nnow={root.src!r}\n' + O.first_diff(got, want), params, rep)
         return
@@ -226,8 +234,9 @@ def own_src_check(fst, pi, src, res):
             # no docstring re-indentation requested, or the node is not a statement (only Expr statements are docstrings):
             # string values must be untouched
             exact = kw.get('docstr') is False or not isinstance(child, (ast.stmt, ast.excepthandler, ast.match_case))
-            g = _CTXRE.sub('ctx=Load()', ast.dump(back.a)) if exact else sdump(back.a)
-            w = _CTXRE.sub('ctx=Load()', ast.dump(child)) if exact else sdump(child)
+            cont = cont_docs(back.a, child)
+            g = _CTXRE.sub('ctx=Load()', ast.dump(back.a)) if exact else sdump(back.a, cont)
+            w = _CTXRE.sub('ctx=Load()', ast.dump(child)) if exact else sdump(child, cont)
             if g != w:
                 res.fail(cid + f'/q{k}', 'own_src-parses-to-something-else', f'src={src!r}\nquery {k} {kw}\nown_src={s!r}\n' + O.first_diff(g, w),
                          {}, {'prog': pi})
